@@ -465,7 +465,9 @@ def key_candidates(d, options=None):
 def field_values(fd):
     """values for one field: valid / convertible / invalid"""
     t = fd["type"]
-    return st.one_of(gen.conforming(t), gen.conforming(t), st.sampled_from(["abc", None, {"t": "list", "v": ["x"]}, {"t": "obj"}, -5, 0, "", "12345"]))
+    return st.one_of(gen.conforming(t), gen.conforming(t), st.sampled_from(["abc", None, {"t": "list", "v": ["x"]}, {"t": "obj"}, -5, 0, "", "12345",
+                                                                              # (int refuses these with OverflowError, not TypeError / ValueError)
+                                                                              "inf", {"t": "float", "v": "inf"}, "-Infinity"]))
 
 
 def _equal_twin(v):
